@@ -71,14 +71,14 @@ static Mat hermitian_with(const std::vector<R> &d, const Mat &Q) { int n = (int)
 static Mat nonnormal_with(const std::vector<L> &d, Rng &r) { int n = (int)d.size(); Mat Q1 = random_unitary(n, r), Q2 = random_unitary(n, r); Mat Sg = Mat::Zero(n, n), Si = Mat::Zero(n, n), D = Mat::Zero(n, n);
     for (int i = 0; i < n; ++i) { R s = 1 + r.uni(); Sg(i, i) = s; Si(i, i) = 1 / s; D(i, i) = d[i]; } Mat X = Q1 * Sg * Q2.adjoint(), Xi = Q2 * Si * Q1.adjoint(); Mat A = X * D * Xi; return A; }
 
-static System make_system(Rng &r, bool spd, int pkind /*0 id, 1 exact, 2 hermitian pd approx, 3 general approx*/, int nmin = 8, int nmax = 24, bool few_distinct = false, double kmax = 10, bool x0zero_ok = true) {
+static System make_system(Rng &r, bool spd, int pkind /*0 id, 1 exact, 2 hermitian pd approx, 3 general approx*/, int nmin = 8, int nmax = 24, bool few_distinct = false, double kmax = 10, bool x0zero_ok = true, double theta_max = 1.0) {
     System s; int n = s.n = (int)r.range(nmin, nmax); s.spd = spd; s.kappa = r.uni(1.5, kmax);
     s.distinct = few_distinct ? (int)r.range(2, std::max(2, n / 2)) : n;
     std::vector<R> d = spectrum(n, s.distinct, s.kappa, r);
     if (spd) { s.A = round_to_working(hermitian_with(d, random_unitary(n, r))); Mat Ah = (s.A + s.A.adjoint()) * mkL(0.5, 0); s.A = round_to_working(Ah); s.akind = "hpd"; }
     else { std::vector<L> dl(n);
 #ifdef C05_COMPLEX
-        for (int i = 0; i < n; ++i) { R th = r.uni(-1.0, 1.0); dl[i] = std::polar<R>(d[i], th); }     // eigenvalues in the right half plane, |arg| <= 1 rad
+        for (int i = 0; i < n; ++i) { R th = r.uni(-theta_max, theta_max); dl[i] = std::polar<R>(d[i], th); }     // eigenvalues in the right half plane, |arg| <= theta_max <= 1 rad
         if (few_distinct) for (int i = 0; i < n; ++i) dl[i] = dl[i % s.distinct];
 #else
         for (int i = 0; i < n; ++i) dl[i] = d[i];
@@ -312,14 +312,14 @@ static void sub_termination() {
     for (long idx = 0; idx < N; ++idx) {
         if (!vf::selected("termination", idx)) continue;
         Rng r(vf::case_seed("termination", idx)); bool exact = idx % 2; bool spd = (idx / 2) % 3 == 0; bool few = (idx / 6) % 2 == 0;
-        System s = make_system(r, spd, exact ? 1 : 0, 8, 24, few, few ? 10.0 : 4.0); int n = s.n; Case c("termination", idx, sysdesc(s)); R nf = s.f.norm();
+        System s = make_system(r, spd, exact ? 1 : 0, 8, 24, few, few ? 10.0 : atof(vf::opt("term_kmax", "4.0").c_str()), true, few ? 1.0 : atof(vf::opt("term_theta", "1.0").c_str())); int n = s.n; Case c("termination", idx, sysdesc(s)); R nf = s.f.norm();
         auto verdict = [&](const std::string &name, const Run &o, size_t bud, size_t slack) {
             if (o.threw) {   // a breakdown exception is acceptable only if the initial guess already satisfied the tolerance (nothing to do)
                 Vec r0 = s.f - s.A * s.x0; c.check((double)(r0.norm() / nf) < 1e-8, name + ":exception", "exception on a well-conditioned system: " + o.what); return; }
             Vec xk = to_vec(o.x); double tr = (double)((s.f - s.A * xk).norm() / nf);
             c.check(allfinite(o.x) && o.res < 1e-7 && tr < 1e-7 && o.iters <= bud + slack, name + ":no-finite-termination", "method did not deliver the solution within its finite-termination budget",
                     J().n("iters", o.iters).n("budget", bud).n("reported", o.res).n("true", tr));
-            vf::obs_max(name + "_max_iters_over_n", (double)o.iters / n); vf::obs_sum("method_k_pairs"); c.nontrivial();
+            vf::obs_max(name + "_max_iters_over_n", (double)o.iters / n); if (!few) vf::obs_max(name + "_max_final_residual_full_spectrum", std::max(o.res, tr)); vf::obs_sum("method_k_pairs"); c.nontrivial();
         };
         size_t nn = (size_t)n;
         if (spd) { amgcl::solver::cg<B>::params p; p.maxiter = nn; amgcl::solver::cg<B> Sv(n, p); verdict("cg", run(Sv, s), nn, 0); }
